@@ -25,7 +25,53 @@ use tera_verif_harness::{catch, driver, quiet_panics, Env};
 
 thread_local! {
     static PROBE: RefCell<Option<Value>> = const { RefCell::new(None) };
+    static COLLECT: RefCell<Vec<Value>> = const { RefCell::new(Vec::new()) };
 }
+
+/// Texts of the string-provenance family: 0, 1, 20, 21, 22 and 40 bytes (21 bytes is the inline
+/// capacity of the engine's small-string representation), ASCII and multi-byte, all lower case.
+const PROV_TEXTS: [&str; 9] = [
+    "",
+    "a",
+    "abcdefghij0123456789",
+    "abcdefghij0123456789_",
+    "abcdefghij0123456789_x",
+    "abcdefghij0123456789abcdefghij0123456789",
+    "\u{e9}\u{e9}\u{e9}\u{e9}\u{e9}\u{e9}\u{e9}\u{e9}\u{e9}\u{e9}",
+    "\u{e9}\u{e9}\u{e9}\u{e9}\u{e9}\u{e9}\u{e9}\u{e9}\u{e9}\u{e9}a",
+    "\u{e9}\u{e9}\u{e9}\u{e9}\u{e9}\u{e9}\u{e9}\u{e9}\u{e9}\u{e9}\u{e9}",
+];
+
+/// Ways of obtaining the same text inside a template: (label, template body). `@T@` is replaced
+/// by the text written as a string literal. Context: t (normal), ts (safe), m (map with the
+/// text as an OWNED String key), mb (same with a borrowed &str key), h1 ~ h2 = t, up = upper
+/// case of t, tx = t followed by "x".
+const PROV_WAYS: [(&str, &str); 24] = [
+    ("context", "{{ t | collect }}"),
+    ("context_safe", "{{ ts | collect }}"),
+    ("literal", "{{ '@T@' | collect }}"),
+    ("set_var", "{% set s = t %}{{ s | collect }}"),
+    ("for_key_owned", "{% for k, v in m %}{{ k | collect }}{% endfor %}"),
+    ("for_key_borrowed", "{% for k, v in mb %}{{ k | collect }}{% endfor %}"),
+    ("for_key_literal_map", "{% for k, v in {'@T@': 1} %}{{ k | collect }}{% endfor %}"),
+    ("keys_first", "{{ m | keys | first | collect }}"),
+    ("keys_index", "{{ (m | keys)[0] | collect }}"),
+    ("pairs_first", "{{ (m | pairs | first)[0] | collect }}"),
+    ("keys_of_literal_map", "{{ {'@T@': 1} | keys | first | collect }}"),
+    ("keys_borrowed", "{{ mb | keys | first | collect }}"),
+    ("group_by_key", "{{ [{'k': t}] | group_by(attribute='k') | keys | first | collect }}"),
+    ("concat", "{{ (h1 ~ h2) | collect }}"),
+    ("lower", "{{ t | lower | collect }}"),
+    ("upper_lower", "{{ up | lower | collect }}"),
+    ("slice", "{{ tx[:-1] | collect }}"),
+    ("str_filter", "{{ t | str | collect }}"),
+    ("safe_filter", "{{ t | safe | collect }}"),
+    ("keys_join", "{{ m | keys | join(sep='') | collect }}"),
+    ("split_first", "{{ t | split(pat='|') | first | collect }}"),
+    ("trim", "{{ t | trim | collect }}"),
+    ("replace", "{{ t | replace(from='|', to='') | collect }}"),
+    ("array_elem", "{{ [t][0] | collect }}"),
+];
 
 const ATTR_NAMES: [&str; 8] = ["a", "b", "k1", "name", "x_y", "Z", "key", "id"];
 
@@ -48,8 +94,85 @@ fn engine() -> Tera {
     for a in ATTR_NAMES {
         tpls.push((format!("attr.{a}"), format!("{{{{ m.{a} | probe }}}}")));
     }
+    tpls.push(("in_list".into(), "{{ (a in [b]) | probe }}".into()));
+    tpls.push(("list_containing".into(), "{{ ([b] is containing(pat=a)) | probe }}".into()));
+    tpls.push(("unique2".into(), "{{ [a, b] | unique | length | probe }}".into()));
     tera.add_raw_templates(tpls).expect("probe templates");
+    tera.register_filter("collect", |v: Value, _: Kwargs, _: &State| {
+        COLLECT.with(|c| c.borrow_mut().push(v.clone()));
+        v
+    });
+    // provenance templates are added one by one: a way the engine does not accept is skipped (and counted)
+    for (ti, text) in PROV_TEXTS.iter().enumerate() {
+        for (label, body) in PROV_WAYS {
+            let _ = tera.add_raw_template(&format!("prov.{ti}.{label}"), &body.replace("@T@", text));
+        }
+    }
     tera
+}
+
+/// every way of obtaining `PROV_TEXTS[ti]` in a template: (label, value as the engine built it)
+fn provenance_values(tera: &Tera, ti: usize) -> (Vec<(&'static str, Value)>, Vec<(&'static str, String)>) {
+    let text = PROV_TEXTS[ti];
+    let mid = text.char_indices().nth(text.chars().count() / 2).map(|(i, _)| i).unwrap_or(0);
+    let mut ctx = Context::new();
+    ctx.insert_value("t", Value::normal_string(text));
+    ctx.insert_value("ts", Value::safe_string(text));
+    ctx.insert_value("h1", Value::normal_string(&text[..mid]));
+    ctx.insert_value("h2", Value::normal_string(&text[mid..]));
+    ctx.insert_value("up", Value::normal_string(&text.to_uppercase()));
+    ctx.insert_value("tx", Value::normal_string(&format!("{text}x")));
+    let mut m = Map::new();
+    m.insert(Key::from(text.to_string()), Value::from(1u64));
+    ctx.insert_value("m", Value::from(m));
+    let mut mb = Map::new();
+    mb.insert(Key::Str(text), Value::from(1u64));
+    ctx.insert_value("mb", Value::from(mb));
+    let mut out = Vec::new();
+    let mut skipped = Vec::new();
+    for (label, _) in PROV_WAYS {
+        COLLECT.with(|c| c.borrow_mut().clear());
+        let r = catch(std::panic::AssertUnwindSafe(|| tera.render(&format!("prov.{ti}.{label}"), &ctx)));
+        let got: Vec<Value> = COLLECT.with(|c| c.borrow_mut().drain(..).collect());
+        match (r, got.as_slice()) {
+            (Ok(Ok(_)), [v]) if v.kind() == ValueKind::String && v.as_str() == Some(text) => out.push((label, v.clone())),
+            (Ok(Ok(_)), g) => skipped.push((label, format!("produced {:?}", g.iter().map(encode).collect::<Vec<_>>()))),
+            (Ok(Err(e)), _) => skipped.push((label, format!("error {e:?}").chars().take(160).collect())),
+            (Err(p), _) => skipped.push((label, format!("panic {p}"))),
+        }
+    }
+    (out, skipped)
+}
+
+/// Everything the property says about two string values with the same text, whatever their
+/// provenance, evaluated on the engine: traits, template operators, `in`, `containing`,
+/// `unique`, and map lookup with one as the stored key and the other as the probe.
+fn same_text_laws(tera: &Tera, a: &Value, b: &Value) -> Option<String> {
+    match cmp3(a, b) {
+        Ok((Ordering::Equal, Some(Ordering::Equal), true)) => {}
+        other => return Some(format!("same text but (cmp, partial_cmp, ==) = {}", cmp3_str(&other))),
+    }
+    for (op, want) in [("eq", "ok B1"), ("ne", "ok B0"), ("le", "ok B1"), ("ge", "ok B1"), ("lt", "ok B0"), ("gt", "ok B0"), ("in_list", "ok B1"), ("list_containing", "ok B1"), ("unique2", "ok u64:1")] {
+        let got = run_tpl(tera, op, &[("a", a), ("b", b)]);
+        let got_norm = if op == "unique2" { got.replace("i64:1", "u64:1").replace("u128:1", "u64:1").replace("i128:1", "u64:1") } else { got.clone() };
+        if got_norm != want {
+            return Some(format!("same text but template `{op}` answers `{got}` (expected `{want}`)"));
+        }
+    }
+    if let Some(k) = tera_verif_harness::wire::value_to_key(a) {
+        let mut mm = Map::new();
+        mm.insert(k, Value::from(7u64));
+        let mv = Value::from(mm);
+        let got = run_tpl(tera, "item", &[("m", &mv), ("k", b)]);
+        if got != "ok u64:7" {
+            return Some(format!("map keyed by the one, probed with the other: m[k] answers `{got}`"));
+        }
+        let got = run_tpl(tera, "in", &[("m", &mv), ("k", b)]);
+        if got != "ok B1" {
+            return Some(format!("map keyed by the one, probed with the other: `k in m` answers `{got}`"));
+        }
+    }
+    None
 }
 
 /// "ok <wire>" | "err <message>" | "panic <msg>"
@@ -1093,6 +1216,24 @@ fn replay(env: &Env, tera: &Tera, path: &str) {
             let req = format!("key {} {}", key_token(&a), key_token(&b));
             println!("request: {req}\nimplementation: {}\nmodel: {}\nlaws: {:?}", key_pair_impl(&a, &b), model_one(env, &req), key_pair_laws(&a, &b));
         }
+        "provenance" => {
+            let ti = j["text_index"].as_u64().unwrap_or(0) as usize;
+            let (vals, skipped) = provenance_values(tera, ti);
+            let la = j["a"].as_str().unwrap_or("");
+            let lb = j["b"].as_str().unwrap_or("");
+            println!("text {:?} ({} bytes); ways skipped: {skipped:?}", PROV_TEXTS[ti], PROV_TEXTS[ti].len());
+            let a = vals.iter().find(|(l, _)| *l == la).map(|(_, v)| v.clone());
+            let b = vals.iter().find(|(l, _)| *l == lb).map(|(_, v)| v.clone());
+            if let (Some(a), Some(b)) = (a, b) {
+                let req = format!("cmp {} {}", encode(&a), encode(&b));
+                println!("a obtained by `{la}`, b obtained by `{lb}`\nrequest: {req}\nimplementation: {}\nmodel: {}\nlaws: {:?}", cmp3_str(&cmp3(&a, &b)), model_one(env, &req), same_text_laws(tera, &a, &b));
+                for op in ["eq", "ne", "le", "ge", "in_list", "list_containing", "unique2"] {
+                    println!("template {op}: {}", run_tpl(tera, op, &[("a", &a), ("b", &b)]));
+                }
+            } else {
+                println!("provenance way not available: {la} / {lb}");
+            }
+        }
         "lookup" if !vals[0].is_map() => {
             for op in ["in", "containing"] {
                 let req = format!("{op} {} {}", encode(&vals[0]), encode(&vals[1]));
@@ -1143,6 +1284,101 @@ fn main() {
     let mut total_pairs = 0u64;
     let rounds = std::env::var("VERIF_C15_ROUNDS").ok().and_then(|s| s.parse::<usize>().ok()).unwrap_or(env.budget(1, 30));
     let w = |s: &str| decode(s).unwrap();
+    // ---------------------------------------------------------------- P. string provenance
+    // the same text obtained in every way a template can obtain it must be one value for ==,
+    // the order, `in`, unique and map lookup (the representation only exists inside the engine)
+    {
+        let mut all: Vec<Vec<(&'static str, Value)>> = Vec::new();
+        for ti in 0..PROV_TEXTS.len() {
+            let (vals, skipped) = provenance_values(&tera, ti);
+            report.count_n("provenance.ways_available", vals.len() as u64);
+            for (l, why) in &skipped {
+                report.count(&format!("provenance.way_skipped.{l}"));
+                if ti == 1 {
+                    report.notes.push(format!("provenance way `{l}` not usable: {why}"));
+                }
+            }
+            all.push(vals);
+        }
+        let mut prov_reqs: Vec<String> = Vec::new();
+        let mut prov_imp: Vec<String> = Vec::new();
+        let mut prov_id: Vec<(usize, usize, usize)> = Vec::new();
+        let mut reported = 0;
+        for (ti, vals) in all.iter().enumerate() {
+            for (i, (la, a)) in vals.iter().enumerate() {
+                for (jx, (lb, b)) in vals.iter().enumerate() {
+                    report.evaluations += 1;
+                    report.oracle_checks += 1;
+                    let req = format!("cmp {} {}", encode(a), encode(b));
+                    note_distinct(&mut distinct, &mut distinct_capped, &format!("prov {ti} {la} {lb}"));
+                    prov_imp.push(cmp3_str(&cmp3(a, b)));
+                    prov_reqs.push(req);
+                    prov_id.push((ti, i, jx));
+                    if let Some(d) = same_text_laws(&tera, a, b).or_else(|| pair_laws(a, b)) {
+                        report.oracle_failures += 1;
+                        report.count(&format!("provenance.fail.{la}.{lb}"));
+                        if reported < 3 {
+                            reported += 1;
+                            report.violation(
+                                "property",
+                                format!("the text {:?} obtained by `{la}` and the same text obtained by `{lb}`: {d}", PROV_TEXTS[ti]),
+                                serde_json::json!({"family": "provenance", "text_index": ti, "text": PROV_TEXTS[ti], "a": la, "b": lb,
+                                    "a_template": PROV_WAYS.iter().find(|w| w.0 == *la).map(|w| w.1), "b_template": PROV_WAYS.iter().find(|w| w.0 == *lb).map(|w| w.1),
+                                    "detail": {"oracle": d}}),
+                            );
+                        }
+                    }
+                }
+            }
+        }
+        // different texts stay different, in every provenance
+        for ti in 0..all.len() {
+            let tj = (ti + 1) % all.len();
+            for (la, a) in all[ti].iter() {
+                for (lb, b) in all[tj].iter().step_by(3) {
+                    report.evaluations += 1;
+                    report.oracle_checks += 1;
+                    prov_imp.push(cmp3_str(&cmp3(a, b)));
+                    prov_reqs.push(format!("cmp {} {}", encode(a), encode(b)));
+                    prov_id.push((ti, usize::MAX, usize::MAX));
+                    if let Some(d) = pair_laws(a, b) {
+                        report.oracle_failures += 1;
+                        if reported < 3 {
+                            reported += 1;
+                            report.violation(
+                                "property",
+                                format!("texts {:?} (`{la}`) and {:?} (`{lb}`): {d}", PROV_TEXTS[ti], PROV_TEXTS[tj]),
+                                serde_json::json!({"family": "pair", "values": [encode(a), encode(b)], "detail": {"oracle": d, "note": "values came from templates (provenance family)"}}),
+                            );
+                        }
+                    }
+                }
+            }
+        }
+        report.count_n("provenance.pairs", prov_reqs.len() as u64);
+        if driver_ok {
+            if let Ok(pm) = driver::run_batch_parallel(&exe, &prov_reqs, threads) {
+                for (n, m) in pm.iter().enumerate() {
+                    report.model_comparisons += 1;
+                    if *m != prov_imp[n] {
+                        report.model_disagreements += 1;
+                        if reported < 3 {
+                            reported += 1;
+                            let (ti, i, jx) = prov_id[n];
+                            let (la, lb) = if i != usize::MAX { (all[ti][i].0, all[ti][jx].0) } else { ("?", "?") };
+                            report.violation(
+                                "model-mismatch",
+                                format!("model `{m}` vs implementation `{}` on `{}` (provenance {la} / {lb})", prov_imp[n], prov_reqs[n]),
+                                serde_json::json!({"family": "provenance", "text_index": ti, "a": la, "b": lb, "implementation": prov_imp[n],
+                                    "detail": {"stage": "correspondence:cmp:provenance", "model": m}}),
+                            );
+                        }
+                    }
+                }
+            }
+        }
+    }
+
     // ---------------------------------------------------------------- B. keys
     let keys = key_lattice(&mut rng, env.budget(4, 24));
     report.count_n("key.lattice", keys.len() as u64);
